@@ -71,7 +71,7 @@ enum ErrorKind {
     #[error("the compiled bytecode is larger than the maximum size of 4GB (size: {0} bytes)")]
     ResultingBytecodeIsTooLarge(usize),
     #[error(
-        "too many patterns in a nested match pattern, {0} is greater than the maximum of {max}",
+        "too many patterns in a match arm or nested match pattern, {0} is greater than the maximum of {max}",
         max = i8::MAX
     )]
     TooManyNestedPatterns(usize),
@@ -1513,6 +1513,15 @@ impl Compiler {
 
         let rhs_node = ctx.node_with_span(expression);
         let rhs_is_temp_tuple = matches!(rhs_node.node, Node::TempTuple(_));
+
+        // Values are taken out of a temporary tuple with TempIndex, which reads its index as an i8
+        if let Node::TempTuple(values) = &rhs_node.node {
+            if targets.len().max(values.len()) > i8::MAX as usize + 1 {
+                return self.error(ErrorKind::TooManyAssignmentTargets(
+                    targets.len().max(values.len()),
+                ));
+            }
+        }
 
         let result = self.assign_result_register(ctx)?;
         let stack_count = self.stack_count();
@@ -4209,6 +4218,12 @@ impl Compiler {
         ctx: CompileNodeContext,
     ) -> Result<()> {
         use Op::*;
+
+        // The patterns of an arm (of a multi-value match as well as nested ones) are matched with
+        // i8 indices (negative from the end)
+        if arm_patterns.len() > i8::MAX as usize {
+            return self.error(ErrorKind::TooManyNestedPatterns(arm_patterns.len()));
+        }
 
         let mut index_from_end = false;
 
